@@ -51,7 +51,7 @@ struct deliv_rec { int active, sidx; uint64_t chg0; int nwoken; short woken[MAXI
 static __thread struct deliv_rec tl_d;
 
 static struct {
-	uint64_t cases, deliveries, deliveries_checked, ambiguous, wakes, entries, handovers_expected, handovers_seen, dfl_checks, fork_raises, fork_raises_from_loop, raw_forks,
+	uint64_t cases, deliveries, deliveries_checked, ambiguous, wakes, entries, handovers_expected, handovers_seen, dfl_checks, fork_raises, fork_raises_from_loop, raw_forks, children_killed,
 		 thread_directed, process_directed, during_handler, this_thread_first, exclusive_stops, obligations, discharged, nonloop_receiver;
 } S;
 static _Atomic long c_deliv, c_checked, c_amb, c_wakes, c_entries, c_ho_exp, c_ho_seen, c_dfl, c_td, c_pd, c_during, c_ttf, c_excl, c_nonloop;
@@ -335,6 +335,26 @@ static int send_signal(int si, int target_loop, int to_main)
 }
 
 long __real_syscall(long, ...);
+/* the child only raises a few signals and exits; one that does not come back within 3 s of real time (it may spin on a lock that
+ * was held by another thread at the moment of the fork, if it gets as far as taking locks) is killed: that is the child's problem,
+ * not a verdict about the parent */
+static void wait_child(pid_t p, int *st)
+{
+	int k;
+	for (k = 0; k < 3000; k++) {
+		struct timespec ts = { 0, 1000000 };
+		pid_t r = __real_wait4(p, st, WNOHANG, NULL);
+		if (r == p || (r < 0 && errno != EINTR))
+			return;
+		nanosleep(&ts, NULL);
+	}
+	__real_kill(p, SIGKILL);
+	while (__real_wait4(p, st, 0, NULL) < 0 && errno == EINTR)
+		;
+	S.children_killed++;
+	mon_printf("NOTE a forked child that received the signals did not exit within 3 s and was killed\n");
+}
+
 static _Atomic int loop_forks;	/* per case */
 
 static void sig_cb(void *cookie)
@@ -416,8 +436,7 @@ static void sig_cb(void *cookie)
 		if (p > 0) {
 			int st;
 			vt_block_begin();
-			while (__real_wait4(p, &st, 0, NULL) < 0 && errno == EINTR)
-				;
+			wait_child(p, &st);
 			vt_block_end();
 			S.fork_raises_from_loop++;
 		}
@@ -557,8 +576,7 @@ static void run_case(long id, uint64_t seed)
 		if (p > 0) {
 			int st;
 			vt_block_begin();
-			while (__real_wait4(p, &st, 0, NULL) < 0 && errno == EINTR)
-				;
+			wait_child(p, &st);
 			vt_block_end();
 			S.fork_raises++;
 		}
